@@ -586,7 +586,7 @@ func runC19(o *opts) error {
 
 	stats := map[string]map[string]int{"rows": {}, "sort_keys": {}, "skip": {}, "limit": {}, "filter_root": {}, "filter_has": {}}
 	bump := func(group, key string) { stats[group][key]++ }
-	r := newRng(o.seed)
+	r := qRng(o.seed, 0xC19)
 	nData, nFilters := 5, 12
 	if o.thorough() {
 		nData, nFilters = 80, 14
